@@ -101,6 +101,13 @@ def Ev.isParseErr : Ev → Bool
   | .parseErr _ => true
   | _ => false
 
+/-- run-Started, ParsingFinished, parser errors -/
+def Ev.isRunLevel : Ev → Bool
+  | .started => true
+  | .parsingFinished .. => true
+  | .parseErr _ => true
+  | _ => false
+
 def Ev.scenEv? : Ev → Option ScenEv
   | .scen _ _ e => some e
   | _ => none
